@@ -4,7 +4,7 @@ from ..oracles import c15
 STREAMS = [stress.stream_vonmises, stress.stream_failure]
 ORACLES = [c15.oracle_ks, c15.oracle_vonmises]
 UNPROVED = ["wingbox closed forms in terms of htop/Qz/J/A_enc are definitional in the model (wb_top = E/L^2 * Mz * htop ...) and not restated as separate theorems",
-            "hand-derived Jacobian of VonMisesTube is not modelled in Coq (covered by C01's numerical search only)"]
+            "the Jacobians of VonMisesTube / VonMisesWingbox are theorems of C01 (C01_VonMisesTube, C01_VonMisesWingbox), not restated here"]
 ASSUMPTIONS = [
     "theorems over R; model tied to VonMisesTube/VonMisesWingbox/FailureKS/FailureExact/NonIntersectingThickness/SectionPropertiesTube by differential execution, stresses up to 1e12 Pa, N up to 48 (thorough 96)",
     "rigid-rotation theorems need an element of non-zero length not parallel to the global x axis (the code's own restriction)",
